@@ -102,7 +102,8 @@ type MineOpts struct {
 	// PayTo selects the key index receiving the coinbase (and tx outputs).
 	PayTo int
 	// Break makes the header invalid in exactly one rule: "pow", "bits",
-	// "median-time", "version", or a future timestamp via Time.
+	// "median-time", "version", or "future-time" (Time is then used as
+	// given and must be far beyond any moment the run reaches).
 	Break string
 	// Salt distinguishes siblings that would otherwise be identical.
 	Salt uint32
@@ -194,6 +195,9 @@ func (t *Tree) Extend(parent *Block, o MineOpts) *Block {
 		hdr.Bits = hdr.Bits - 1
 	}
 	target := CompactToBig(hdr.Bits)
+	if w := Work(hdr.Bits); w.BitLen() > 22 {
+		panic(fmt.Sprintf("chainmodel: block at height %d would cost about 2^%d hashes to mine (bits %08x): the scenario let the difficulty run away", height, w.BitLen(), hdr.Bits))
+	}
 	for nonce := uint32(0); ; nonce++ {
 		hdr.Nonce = nonce
 		ok := HashToBig(hdr.BlockHash()).Cmp(target) <= 0
